@@ -153,9 +153,12 @@ type obs struct {
 	Err        string   `json:"err"`
 	Planned    []string `json:"planned,omitempty"`
 	Read       []string `json:"read,omitempty"`
+	Style      string   `json:"style,omitempty"`
 }
 
-func trimStmt(s string) string { return strings.TrimSpace(strings.TrimSuffix(strings.TrimSpace(s), ";")) }
+func trimStmt(s string) string {
+	return strings.TrimSpace(strings.TrimSuffix(strings.TrimSpace(s), ";"))
+}
 
 // downText extracts the text of the down section of a written directory (format-specific, by the harness).
 func downText(fm format, dir string) (string, bool) {
@@ -205,7 +208,13 @@ func main() {
 	wf := bufio.NewWriterSize(full, 1<<20)
 	dialects := []*dialect{
 		{name: "mysql", eval: func(b []byte, v any, _ map[string]any) error { return mysql.EvalHCLBytes(b, v, nil) }, plan: mysql.DefaultPlan, scan: (&mysql.Driver{}).ScanStmts,
-			intT: "int", strT: "varchar(255)", enumT: func(v ...string) string { q := []string{}; for _, x := range v { q = append(q, hclStr(x)) }; return "enum(" + strings.Join(q, ",") + ")" }},
+			intT: "int", strT: "varchar(255)", enumT: func(v ...string) string {
+				q := []string{}
+				for _, x := range v {
+					q = append(q, hclStr(x))
+				}
+				return "enum(" + strings.Join(q, ",") + ")"
+			}},
 		{name: "postgres", eval: func(b []byte, v any, _ map[string]any) error { return postgres.EvalHCLBytes(b, v, nil) }, plan: postgres.DefaultPlan, scan: (&postgres.Driver{}).ScanStmts,
 			intT: "integer", strT: "character_varying(255)", enumT: func(v ...string) string { return "enum.mood" }},
 		{name: "sqlite", eval: func(b []byte, v any, _ map[string]any) error { return sqlite.EvalHCLBytes(b, v, nil) }, plan: sqlite.DefaultPlan, scan: (&sqlite.Driver{}).ScanStmts,
@@ -335,8 +344,23 @@ func main() {
 							o.Err = "format: " + err.Error()
 							return
 						}
+						// every third observation: the files as a person (or the third-party tool) might have left them - blanks and tabs
+						// after the terminating semicolons; neutral in every format's grammar (only for contents without line breaks,
+						// where a line ending in ';' is the end of a statement)
+						blanks := nobs%3 == 0 && !strings.Contains(content, "\n") && !strings.Contains(content, ";")
 						for _, f := range files {
-							if err := os.WriteFile(filepath.Join(p, f.Name()), f.Bytes(), 0o644); err != nil {
+							b := f.Bytes()
+							if blanks {
+								ls := strings.Split(string(b), "\n")
+								for i, l := range ls {
+									if strings.HasSuffix(l, ";") {
+										ls[i] = l + "  \t"
+									}
+								}
+								b = []byte(strings.Join(ls, "\n"))
+								o.Style = "trailing-blanks"
+							}
+							if err := os.WriteFile(filepath.Join(p, f.Name()), b, 0o644); err != nil {
 								panic(err)
 							}
 						}
